@@ -146,6 +146,34 @@ func c40Synthetic() []*descriptorpb.FileDescriptorProto {
 				{Name: proto.String("Ledger"), Options: mo2, Field: []*descriptorpb.FieldDescriptorProto{{Name: proto.String("id"), Number: proto.Int32(1), Label: opt, Type: str}}}},
 		})
 	}
+	// pbsim/c40/clash/clash.proto (edition 2023, opaque API): fields whose Go names collide only after
+	// camel-casing (user_id / UserId, ...), one member of each colliding pair inside the same oneof:
+	// the generator's name mangling has to resolve several conflicts that meet in one oneof name
+	{
+		i64 := descriptorpb.FieldDescriptorProto_TYPE_INT64.Enum()
+		gof := &gofeaturespb.GoFeatures{ApiLevel: gofeaturespb.GoFeatures_API_OPAQUE.Enum()}
+		fs := &descriptorpb.FeatureSet{}
+		proto.SetExtension(fs, gofeaturespb.E_Go, gof)
+		in := func(f *descriptorpb.FieldDescriptorProto) *descriptorpb.FieldDescriptorProto {
+			f.OneofIndex = proto.Int32(0)
+			return f
+		}
+		out = append(out, &descriptorpb.FileDescriptorProto{
+			Name: proto.String("pbsim/c40/clash/clash.proto"), Package: proto.String("pbsim.c40.clash"), Syntax: proto.String("editions"), Edition: descriptorpb.Edition_EDITION_2023.Enum(),
+			Dependency: []string{"google/protobuf/go_features.proto"},
+			Options:    &descriptorpb.FileOptions{GoPackage: proto.String("example.com/pbsim/c40/clash"), Features: fs},
+			MessageType: []*descriptorpb.DescriptorProto{{Name: proto.String("Acl"),
+				OneofDecl: []*descriptorpb.OneofDescriptorProto{{Name: proto.String("principal")}},
+				Field: []*descriptorpb.FieldDescriptorProto{
+					{Name: proto.String("user_id"), Number: proto.Int32(1), Label: opt, Type: str},
+					{Name: proto.String("group_id"), Number: proto.Int32(2), Label: opt, Type: str},
+					{Name: proto.String("role_id"), Number: proto.Int32(3), Label: opt, Type: str},
+					in(&descriptorpb.FieldDescriptorProto{Name: proto.String("UserId"), Number: proto.Int32(4), Label: opt, Type: i64}),
+					in(&descriptorpb.FieldDescriptorProto{Name: proto.String("GroupId"), Number: proto.Int32(5), Label: opt, Type: i64}),
+					in(&descriptorpb.FieldDescriptorProto{Name: proto.String("RoleId"), Number: proto.Int32(6), Label: opt, Type: i64}),
+				}}},
+		})
+	}
 	return out
 }
 
